@@ -1,23 +1,21 @@
 use super::Compiler;
+use aelys_common::Result;
 
 impl Compiler {
     /// Get or create global index, translating imported names to qualified names.
     /// Use for function calls to direct imports.
-    pub fn get_or_create_global_index(&mut self, name: &str) -> u16 {
+    pub fn get_or_create_global_index(&mut self, name: &str) -> Result<u16> {
         let actual_name = self.resolve_global_name(name).to_string();
         self.get_or_create_global_index_raw(&actual_name)
     }
 
     /// Get or create global index without name translation.
     /// Use for variable declarations and assignments.
-    pub fn get_or_create_global_index_raw(&mut self, name: &str) -> u16 {
+    pub fn get_or_create_global_index_raw(&mut self, name: &str) -> Result<u16> {
         if let Some(&idx) = self.global_indices.get(name) {
-            idx
+            Ok(idx)
         } else {
-            let idx = self.next_global_index;
-            self.global_indices.insert(name.to_string(), idx);
-            self.next_global_index += 1;
-            idx
+            self.alloc_global_index(name)
         }
     }
 
